@@ -647,6 +647,42 @@ func checkC13(r *Result) {
 	// ---- PRO-RATA
 	checkProRata(r)
 
+	// ---- a round in which nobody voted has no VoteCountsByGroup record: both readers over the rounds must treat the
+	// missing record as "no votes" (the execution sets a pot aside on the strength of the other rounds; a reader
+	// that fails on the missing record makes that pot unclaimable)
+	if fn := need("(x/dispute/keeper.Keeper).CalculateReward"); fn != nil {
+		tmn := NewTermer()
+		ps := AnalyzePaths(fn, []Atom{
+			{Name: "countsMissing", Stable: true, Cond: func(rel *Term) (bool, bool) {
+				if rel.Op == "call:errors.Is" && len(rel.Args) == 2 && rel.Args[0].Contains("VoteCountsByGroup") && strings.HasSuffix(rel.Args[1].Op, "ErrNotFound") {
+					return true, true
+				}
+				return false, false
+			}},
+			{Name: "countsErr", Cond: func(rel *Term) (bool, bool) {
+				if rel.Op == "==" && len(rel.Args) == 2 && rel.Args[1].Op == "const:nil" && rel.Args[0].Op == "ext:1" && rel.Args[0].Contains("VoteCountsByGroup") {
+					return true, false
+				}
+				return false, false
+			}},
+		})
+		okAll, n := true, 0
+		for _, b := range fn.Blocks {
+			ret, isRet := b.Instrs[len(b.Instrs)-1].(*ssa.Return)
+			if !isRet || !DefinitelyFails(ret) {
+				continue
+			}
+			if !tmn.Of(ResultOf(ret, 1)).Contains("VoteCountsByGroup") {
+				continue
+			}
+			n++
+			if bad := ps.Require(ret, func(v map[string]bool) bool { return !v["countsMissing"] }); len(bad) > 0 {
+				okAll = false
+			}
+		}
+		r.check(okAll && len(ps.Matched["countsMissing"]) > 0, "ALL-ROUNDS", "(x/dispute/keeper.Keeper).CalculateReward # a round without a vote-count record is skipped, not an error (as in the sum that decides whether a pot is set aside)", P.Pos(fn.Pos()), fmt.Sprintf("%d error returns carrying the lookup's error ; NotFound tested: %v", n, len(ps.Matched["countsMissing"]) > 0))
+	}
+
 	// ---- ALL-ROUNDS
 	for _, name := range []string{"(x/dispute/keeper.Keeper).CalculateReward", "(x/dispute/keeper.Keeper).GetSumOfAllGroupVotesAllRounds"} {
 		if fn := need(name); fn != nil {
